@@ -698,9 +698,9 @@ Theorem compile_correct3 : forall sc lv rho e r rho', ref_eval3 bsem sc lv rho e
 Proof.
   apply (ref_eval3_min bsem body_ok args_okP).
   - intros sc lv rho c f l tail s l' s' code Hwf. pose proof Hwf as [Hs Hd]. revert f l tail s l' s' code Hwf.
-    apply (dyn_datum sc lv rho (YConst c) c); [intros; apply compile_const_eq; exact Hs|exact Hd].
+    apply (dyn_datum sc lv rho (YConst c) c); [intros; apply compile_const_eq; [exact Hs|exact Hd]|exact Hd].
   - intros sc lv rho d f l tail s l' s' code Hwf. pose proof Hwf as Hd. cbn [wf3] in Hd. revert f l tail s l' s' code Hwf.
-    apply (dyn_datum sc lv rho (YQuote d) d); [intros; apply compile_quote_form|exact Hd].
+    apply (dyn_datum sc lv rho (YQuote d) d); [intros; apply compile_quote_form; exact Hd|exact Hd].
   - intros sc lv rho x i r Hp Hn. apply (dyn_local sc lv rho x i r Hp Hn).
   - intros sc lv rho x r Hp Hr Hu. apply dyn_global; assumption.
   - intros sc lv rho c a b rc rho1 r rho2 _ IHc Hrc _ IHa. apply (dyn_if sc lv rho c a b rc rho1 r rho2 false IHc Hrc IHa).
